@@ -635,7 +635,7 @@ Qed.
 Lemma hstep_inv : forall s o, hs_inv s -> hs_inv (hstep s o).
 Proof.
   intros s o [E [I N]]. unfold hstep. rewrite E. destruct o.
-  - destruct (heap_add_ok (hs_tl s) (mkT exp (hs_next s) 0) I) as [h' [E1 [I1 [L1 M1]]]].
+  - destruct (heap_add_ok (hs_tl s) (mkT exp (hs_next s) 0 0 0) I) as [h' [E1 [I1 [L1 M1]]]].
     + intros u Hu. apply N in Hu. simpl. lia.
     + rewrite E1. split; [reflexivity|]. split; [exact I1|]. simpl.
       intros u Hu. apply M1 in Hu. destruct Hu as [Hu| ->]; [apply N in Hu; lia|simpl; lia].
